@@ -12,7 +12,10 @@ def decodeLine (bs : List UInt8) : Option Str := (String.fromUTF8? (ByteArray.mk
 /-- bytes → the decoded lines the line-based readers see (all-at-once delivery) -/
 def docLines (doc : List UInt8) : List (Option Str) := (linesOf doc).map decodeLine
 
-def tooLong (doc : List UInt8) : Bool := (linesOf doc).any fun l => l.length ≥ 65536
+/-- some line of the document has more than `maxLineSize = 65535` bytes (terminator excluded): the
+    repaired scanner ends with `bufio.ErrTooLong` whatever ends the line and however the bytes are
+    delivered (`C18.long_line_fails`); the readers' models do not cover that outcome -/
+def tooLong (doc : List UInt8) : Bool := (linesOf doc).any fun l => l.length ≥ 65536   -- `= Go.firstLong doc`
 
 def utf8 (s : Str) : List UInt8 := (String.ofList s).toUTF8.toList
 
@@ -71,6 +74,11 @@ def handleSRT (op : String) (args impl : List String) : Verdict :=
     match decBytes doc with
     | some doc =>
       if tooLong doc then .unmodelled else
+      -- int64 wrap-around is not modelled (`parseDuration` adds `time.Duration`s; from 2562048 hours on they wrap)
+      let wraps := match SRT.read (docLines doc) with
+        | .ok s => s.items.any fun it => it.startAt > 9223372036854775807 || it.endAt > 9223372036854775807
+        | _ => false
+      if wraps then .unmodelled else
       match resStr (SRT.read (docLines doc)) with
       | none => .unmodelled
       | some m =>
@@ -95,6 +103,8 @@ def handleSRT (op : String) (args impl : List String) : Verdict :=
   | "srt.write", toks =>
     match decSubs toks with
     | some (s, []) =>
+      -- negative instants: `formatDuration` prints signs inside the fields (`00:00:0-1,000`), not modelled
+      if s.items.any (fun it => it.startAt < 0 || it.endAt < 0) then .unmodelled else
       let m : Option String :=
         match SRT.write s with
         | none => some "err"
